@@ -46,14 +46,15 @@ static const struct { char *sp; int len; int kind; char *out; } SZ[6] = {
   {"+", 1, TK_PUNCT, "+"},
 };
 
-static void run_strz(int c0, int c1, int n, bool sp) {
+static void run_strz(int c0, int c1, int n, int sp) {
   char want[40];
   int o = 0;
   want[o++] = '"';
   mk(SZ[c0].kind, SZ[c0].sp, SZ[c0].len, false);
   for (int j = 0; j < 12 && SZ[c0].out[j]; j++) want[o++] = SZ[c0].out[j];
   if (n == 2) {
-    mk(SZ[c1].kind, SZ[c1].sp, SZ[c1].len, sp);
+    Token *t2 = mk(SZ[c1].kind, SZ[c1].sp, SZ[c1].len, sp == 1);
+    t2->at_bol = sp == 2;                       // sp == 2: the invocation continues on a new line before this token
     if (sp) want[o++] = ' ';
     for (int j = 0; j < 12 && SZ[c1].out[j]; j++) want[o++] = SZ[c1].out[j];
   }
@@ -76,14 +77,48 @@ static void run_strz(int c0, int c1, int n, bool sp) {
 }
 void h_stringize(void) {
   HAVOC_IN();
-  __CPROVER_assume(IN.n >= 1 && IN.n <= 2 && IN.k[0] < 6 && IN.k[1] < 6 && IN.sp <= 1);
+  __CPROVER_assume(IN.n >= 1 && IN.n <= 2 && IN.k[0] < 6 && IN.k[1] < 6 && IN.sp <= 2);
   // case split with the call INSIDE each case: spellings are concrete per case (symbolic spellings merged before the
   // call make every character access a dereference of a symbolic pointer, which cbmc 6.11 handles very slowly)
   for (int c0 = 0; c0 < 6; c0++)
     for (int c1 = 0; c1 < 6; c1++)
       for (int n = 1; n <= 2; n++)
-        for (int sp = 0; sp <= 1; sp++)
+        for (int sp = 0; sp <= 2; sp++)
           if (IN.k[0] == c0 && IN.k[1] == c1 && IN.n == n && IN.sp == sp) { run_strz(c0, c1, n, sp); return; }
+}
+
+// An argument is used twice: once expanded (`x`), once as the operand of `#` - in either order.  The REAL subst() on
+// F(+ p)  where  #define p P : C11 6.10.3.1 - the `#` operand is the argument as WRITTEN ("+ p"), whatever happened to
+// the other occurrence.  preprocess2() is replaced by its contract at its most hostile: it returns the expansion and
+// CONSUMES the list it was handed (the real one relinks the tokens it passes through - with the real
+// preprocess2/expand_macro the query does not finish in 600 s).
+Token *stub_preprocess2(Token *tok);
+Token *stub_preprocess2_consume(Token *tok) {
+  Token *r = stub_preprocess2(tok);
+  for (Token *t = tok; t && t->kind != TK_EOF; ) { Token *n = t->next; t->next = r; t->loc = "?"; t->len = 1; t->val = verif_spell("?"); t = n; }
+  return r;
+}
+void h_arg_reuse(void) {
+  HAVOC_IN();
+  __CPROVER_assume(IN.va <= 1);               // order:  x #x   or   #x x
+  if (IN.va) { mk(TK_PUNCT, "#", 1, false); mk(TK_IDENT, "x", 1, false); mk(TK_IDENT, "x", 1, true); }
+  else { mk(TK_IDENT, "x", 1, false); mk(TK_PUNCT, "#", 1, true); mk(TK_IDENT, "x", 1, false); }
+  mk(TK_EOF, "", 0, false);
+  Token *body = take_list();
+  MacroArg ax = {.name = "x"};
+  mk(TK_PUNCT, "+", 1, false); mk(TK_IDENT, "p", 1, true); mk(TK_EOF, "", 0, false);
+  ax.tok = take_list();
+  expect_no_diag = 1;
+  captured = NULL;
+  Token *out = NULL;
+  TRY(out = subst(body, &ax));
+  if (verif_diag) return;
+  const char *want = "\"+ p\"";
+  VASSERT(captured != NULL, "the # operand was stringized");
+  for (int j = 0; j < 6; j++) VASSERT(captured[j] == want[j], "`#x` is the spelling of the argument as written, also when another `x` in the body was macro-expanded");
+  Token *t = IN.va ? out->next : out;
+  VASSERT(t && t->val == verif_spell("+") && t->next && t->next->kind == TK_IDENT && t->next->len == 1 && t->next->loc[0] == 'P', "the plain occurrence is fully macro-expanded");
+  VCOVER();
 }
 
 Token *stub_preprocess2(Token *tok) {      // as in macro.c: p and q behave as macros defined as P and Q
